@@ -44,7 +44,7 @@ TWIN_CLASS = 2       # index of c15.Twin in family N
 CASE_TIMEOUT_S = 2.0   # CPU-time guard per case (ITIMER_VIRTUAL: immune to machine load; a non-terminating write is CPU-bound)
 VIEW_OPS_LIST = ["AssignRev", "AssignIter", "AssignChain", "AssignFilter"]
 VIEW_OPS_SET = ["AssignIter", "AssignChain", "AssignFilter"]
-LIST_OPS = VIEW_OPS_LIST + ["IAugAlias", "SliceRev", "SliceFilter", "Assign", "AssignSelf", "IAug", "Append", "Extend", "ExtendGen", "ExtendSelf", "Insert", "SetItem", "SetSlice", "SetSliceGen"]
+LIST_OPS = VIEW_OPS_LIST + ["IAugAlias", "ExtendLazy", "IAugLazy", "SliceRev", "SliceFilter", "Assign", "AssignSelf", "IAug", "Append", "Extend", "ExtendGen", "ExtendSelf", "Insert", "SetItem", "SetSlice", "SetSliceGen"]
 SET_OPS = VIEW_OPS_SET + ["IAugAlias", "Assign", "AssignList", "AssignSelf", "IAug", "Add", "Update", "Update2"]
 
 
@@ -160,6 +160,14 @@ def run_impl(descr) -> Dict[str, Any]:
                     aug(name, "+=")(owner, vals)
                 else:
                     aug(name, "|=")(owner, set(vals))
+            elif k in ("ExtendLazy", "IAugLazy"):   # a lazy iterable that READS the field: "add the candidates that are not there yet"
+                cur = getattr(owner, name)
+                gen = (v for v in [elems[i] for i in args[0]] if not any(v is w for w in getattr(owner, name)))
+                if k == "ExtendLazy":
+                    cur.extend(gen)
+                else:
+                    aug(name, "+=")(owner, gen)
+                del cur
             elif k == "IAugAlias":             # the in-place operator through another reference to the container
                 vals = [elems[i] for i in args[0]]
                 alias = getattr(owner, name)
@@ -592,6 +600,8 @@ def op_term(op) -> str:
         return f"IAug {nl(args[0])}"
     if k == "IAugAlias":
         return f"IAugAlias {nl(args[0])}"
+    if k in ("ExtendLazy", "IAugLazy"):
+        return f"ExtendLazyNew {nl(args[0])}"
     if k == "Append":
         return f"Append {args[0]}"
     if k in ("Extend", "ExtendGen"):
@@ -666,7 +676,7 @@ def gen_case(rng: core.Rng, scn: str) -> dict:
         k = rng.choice(LIST_OPS if kind == "list" else SET_OPS)
         vs = [rng.randint(0, NELEM - 1) for _ in range(rng.randint(0, 3))]
         x = rng.randint(0, NELEM - 1)
-        if k in ("Assign", "AssignList", "IAug", "IAugAlias", "Extend", "ExtendGen", "Update"):
+        if k in ("Assign", "AssignList", "IAug", "IAugAlias", "ExtendLazy", "IAugLazy", "Extend", "ExtendGen", "Update"):
             ops.append([k, vs])
         elif k == "ExtendSelf" and sum(1 for o in ops if o[0] == "ExtendSelf") >= 2:
             ops.append(["Append", x])          # keep the lists small: at most two doublings per history
@@ -758,7 +768,6 @@ def run(tier: str, seed: int, replay=None) -> int:
     rep.assume = [
         "the field is written by its owner with fresh arguments (lists, sets, generators) or with itself for assignment / += / |=; "
         "the generated histories write fields whose inferences go to OTHER fields (inverse, super-property); item assignment on a transitive field (inference writes back into the written list; C16-i, fixed) is replayed from its witnesses against the model setitem_then_infer",
-        "extend / += are given materialised iterables or generators that do not read the field (a lazy iterable reading the field is evaluated against the old contents because extend copies first: C16-o, refuted)",
         "reading a managed field with == is not modelled; K_container_eq (C16-h) is replayed from its witness",
         "a shallow copy of the owner shares the container (as plain Python does): writes through either owner's field must be recorded for that owner; plain assignment through the clone (C16-j, fixed e598545) is replayed as a regression witness and generated; the small model cstep is compared exactly",
         "elements of SET-valued fields are pairwise different under == (Python's own set semantics go by ==, the symbol graph by identity); twins are generated for list fields only",
@@ -767,7 +776,7 @@ def run(tier: str, seed: int, replay=None) -> int:
     ]
     rep.rule = ("random histories of 1-7 operations (assignment of a fresh list/set, self-assignment, += / |=, append, extend with a list, a generator or the field itself, "
                 "insert, item assignment and slice assignment (list or generator value) with indices in -4..5, add, update with 1 or 0-3 iterables) from random initial contents given to the constructor, "
-                "on Person.member_of, Company.members, Node.a, Node.b and on fields of classes with user protocols (an owner that is falsy while empty and iterable, falsy elements, elements of an eq=True dataclass without hash, elements that define __iter__ / __len__); += / |= also through another reference to the container; assignment of LAZY views over the field itself (reversed, iter, chain, filtering generator); transitive families (writes on Org.part_of (transitive, no inverse) of the first symbol of a fresh graph that already has incoming and outgoing relations; graph = C15 closure of all facts); churn families (40 turns of fresh elements whose predecessors die, so addresses are reused; in half of them the dead nodes are swept each turn, so node indices are reused too) and clone families (writes through a copy.copy of the owner); elements drawn with repetition from 4 objects (in the Node.a scenario objects 2 and 3 are distinct Twin objects that compare and hash equal; recording is checked per object identity); "
+                "on Person.member_of, Company.members, Node.a, Node.b and on fields of classes with user protocols (an owner that is falsy while empty and iterable, falsy elements, elements of an eq=True dataclass without hash, elements that define __iter__ / __len__); += / |= also through another reference to the container; extend / += also with a lazy iterable that reads the field (`v for v in cands if v not in x.f`); assignment of LAZY views over the field itself (reversed, iter, chain, filtering generator); transitive families (writes on Org.part_of (transitive, no inverse) of the first symbol of a fresh graph that already has incoming and outgoing relations; graph = C15 closure of all facts); churn families (40 turns of fresh elements whose predecessors die, so addresses are reused; in half of them the dead nodes are swept each turn, so node indices are reused too) and clone families (writes through a copy.copy of the owner); elements drawn with repetition from 4 objects (in the Node.a scenario objects 2 and 3 are distinct Twin objects that compare and hash equal; recording is checked per object identity); "
                 "non-trivial = at least one operation changes the contents; distinct = distinct (scenario, initial contents, history)")
     ok_spec, log = core.coq_make(["Base/Sx.vo", "Onto/ContainerSpec.vo", "Onto/ClosureSpec.vo"])
     rep.oblige("build:spec", ok_spec, "" if ok_spec else core.first_error(log))
